@@ -128,6 +128,8 @@ type api struct {
 	scan func(sql string, min security.Severity) ([]key, *security.ScanResult, error)
 }
 
+var thresholds = []security.Severity{security.SeverityLow, security.SeverityMedium, security.SeverityHigh, security.SeverityCritical}
+
 var sevRank = map[string]int{"LOW": 1, "MEDIUM": 2, "HIGH": 3, "CRITICAL": 4}
 
 func apis() []api {
@@ -409,6 +411,34 @@ func Check() *common.Check {
 								if fmt.Sprint(r1) != fmt.Sprint(r2) {
 									ok = false
 									c.Fail("reuse-differs:tree", fmt.Sprintf("a scanner used before answers %v, a new one %v", r1, r2))
+								}
+							}
+							// ... also when its threshold field is re-assigned between scans: every ordered pair of thresholds
+							if t1, err := gosqlx.Parse(canon.SQL()); err == nil {
+								if t2, err := gosqlx.Parse(stmt.SQL()); err == nil {
+									for _, a := range thresholds {
+										for _, b := range thresholds {
+											sc, err := security.NewScannerWithSeverity(a)
+											if err != nil {
+												continue
+											}
+											sc.Scan(t1)
+											sc.ScanSQL(canon.SQL())
+											sc.MinSeverity = b
+											fresh, err := security.NewScannerWithSeverity(b)
+											if err != nil {
+												continue
+											}
+											if r1, r2 := sc.Scan(t2), fresh.Scan(t2); fmt.Sprint(r1) != fmt.Sprint(r2) {
+												ok = false
+												c.Fail("reuse-differs:tree:threshold-reassigned", fmt.Sprintf("a scanner used at %s and then set to %s answers %v, a new one at %s %v", a, b, r1, b, r2))
+											}
+											if r1, r2 := sc.ScanSQL(stmt.SQL()), fresh.ScanSQL(stmt.SQL()); fmt.Sprint(r1) != fmt.Sprint(r2) {
+												ok = false
+												c.Fail("reuse-differs:text:threshold-reassigned", fmt.Sprintf("a scanner used at %s and then set to %s answers %v, a new one at %s %v", a, b, r1, b, r2))
+											}
+										}
+									}
 								}
 							}
 							if ok {
